@@ -48,6 +48,8 @@ TARGET_FILES = {_src(amod), _src(_rec_mod), _src(_tc_mod), _src(_mrec_mod)}
 OPCODE_FILE = _src(amod)
 HANG_S = 20.0
 STEP_LIMIT = 6000
+RUN_WALL_S = 90.0       # wall-clock watchdog of one scheduled run (a primitive that sleeps for real inside a spin loop)
+CALL_YIELDS = 400       # yield points one caller's request may pass at most (HEAD: < 10 atomic, < 80 at opcode level)
 ROLE_ORDER = {'producer': 0, 'main': 1, 'flusher': 2}
 
 S = None            # the scheduler of the run in progress (None: spies and primitives are inert / real threads)
@@ -85,6 +87,7 @@ class LT(object):
         self.call_locked = False
         self.ops_done = 0
         self.yields = 0
+        self.call_yields = 0
 
 
 class Sched(object):
@@ -105,6 +108,8 @@ class Sched(object):
         self.setup_done = False
         self.closed = False
         self.nyield = 0
+        self.t0 = time.monotonic()
+        self.stalled = set()      # callers found unable to finish a request while the flusher was inside a storage call
         self.tracer = self._make_tracer() if gran in ('line', 'opcode') else None
 
     # -- helpers used by policies
@@ -155,6 +160,8 @@ class Sched(object):
             return b[1].state == 'done'
         if k == 'joinall':
             return all(x.state == 'done' for x in b[1])
+        if k == 'cond':
+            return b[2] or b[3][0]          # timed wait (the timer can fire at any moment) or notified
         return True
 
     def _default(self, me, en, kind):
@@ -205,6 +212,20 @@ class Sched(object):
         if self.nyield > self.step_limit:
             self.abort('step-limit')
             raise Abort()
+        if self.nyield % 256 == 0 and time.monotonic() - self.t0 > RUN_WALL_S:
+            self.abort('hang')
+            raise Abort()
+        if me.in_call:
+            # "callers never wait for the wrapped storage": a request that keeps passing yield points (polling a
+            # condition / an event / a lock with a timeout) while the flusher sits inside a storage call is waiting for it
+            me.call_yields += 1
+            if me.call_yields > CALL_YIELDS and me not in self.stalled:
+                self.stalled.add(me)
+                f = self.flusher()
+                if f is not None and f.in_storage > 0:
+                    self.viol.add('caller-waits-for-storage')
+                else:
+                    self.viol.add('caller-call-does-not-return')
         nxt = self._pick(me, kind)
         if nxt is None:
             self.abort('deadlock')
@@ -277,6 +298,16 @@ class Sched(object):
         owner = lock.owner
         if owner is not None and owner.in_storage > 0 and me.role in ('producer', 'main'):
             self.viol.add('caller-blocked-by-storage-call')
+
+    def note_wait(self, me):
+        """a caller's request goes to sleep on a condition / semaphore: if the flusher is inside a storage call at that
+        moment and is the only one who can wake it, the caller waits for the wrapped storage"""
+        f = self.flusher()
+        if me.role == 'producer' and me.in_call and f is not None and f.in_storage > 0:
+            others = [t for t in self.threads if t.role == 'producer' and t is not me and t.state != 'done']
+            if not others:
+                self.viol.add('caller-waits-for-storage')
+                self.stalled.add(me)
 
 
 class SLock(object):
@@ -357,6 +388,143 @@ class SEvent(object):
         return self.flag
 
 
+class SCondition(object):
+    """threading.Condition over a scheduled lock (whatever the module under test builds on top of its lock to make
+    a thread wait: bounded buffers, hand-shakes).  wait() releases the lock, is enabled again when notified or - timed
+    wait - at any moment (the timer may fire), and re-acquires the lock."""
+    def __init__(self, lock=None):
+        self._lock = lock if lock is not None else SLock()
+        self.waiters = []
+        self.acquire = self._lock.acquire
+        self.release = self._lock.release
+
+    def __enter__(self):
+        return self._lock.__enter__()
+
+    def __exit__(self, *exc):
+        return self._lock.__exit__(*exc)
+
+    def wait(self, timeout=None):
+        s = S
+        me = s.cur
+        if self._lock.owner is not me:
+            raise RuntimeError("cannot wait on un-acquired lock")
+        cell = [False]
+        self.waiters.append(cell)
+        s.note_wait(me)
+        self._lock.owner = None
+        s.on_release(me)
+        me.block = ('cond', self, timeout is not None, cell)
+        s.yield_point('wait')
+        if cell in self.waiters:
+            self.waiters.remove(cell)
+        # re-acquire (no trace event of its own for a producer: it is the same request)
+        while self._lock.owner is not None:
+            s.note_block(me, self._lock)
+            me.block = ('lock', self._lock)
+            s.yield_point('blocked')
+        self._lock.owner = me
+        if me.role == 'flusher':
+            s.trace.append(['L'])
+        return cell[0]
+
+    def wait_for(self, predicate, timeout=None):
+        r = predicate()
+        while not r:
+            self.wait(timeout)
+            r = predicate()
+            if timeout is not None and not r:
+                # (a timed wait_for gives up at some point: after one more round here)
+                self.wait(timeout)
+                return predicate()
+        return r
+
+    def notify(self, n=1):
+        if self._lock.owner is not S.cur:
+            raise RuntimeError("cannot notify on un-acquired lock")
+        for cell in self.waiters[:n]:
+            cell[0] = True
+        del self.waiters[:n]
+
+    def notify_all(self):
+        self.notify(len(self.waiters))
+
+    notifyAll = notify_all
+
+
+class SSemaphore(object):
+    """threading.Semaphore / BoundedSemaphore under the scheduler"""
+    def __init__(self, value=1):
+        self.value = value
+        self.bound = None
+
+    def acquire(self, blocking=True, timeout=None):
+        s = S
+        me = s.cur
+        s.yield_point('pre-acquire')
+        while self.value <= 0:
+            if not blocking:
+                return False
+            s.note_wait(me)
+            me.block = ('cond', self, timeout is not None, _SemCell(self))
+            s.yield_point('wait')
+            if timeout is not None and self.value <= 0:
+                return False
+        self.value -= 1
+        return True
+
+    def release(self, n=1):
+        if self.bound is not None and self.value + n > self.bound:
+            raise ValueError("Semaphore released too many times")
+        self.value += n
+        if S is not None:
+            S.yield_point('post-release')
+
+    __enter__ = acquire
+
+    def __exit__(self, *exc):
+        self.release()
+
+
+class _SemCell(object):
+    def __init__(self, sem):
+        self.sem = sem
+
+    def __getitem__(self, i):
+        return self.sem.value > 0
+
+
+def SBoundedSemaphore(value=1):
+    x = SSemaphore(value)
+    x.bound = value
+    return x
+
+
+# what is substituted in the module under test (only the names it actually imported)
+SUBST = dict(Thread=None, Lock=None, RLock=None, Event=None, Condition=None, Semaphore=None, BoundedSemaphore=None)
+
+
+def substitute():
+    """-> saved attributes; Thread / Lock / Event always, Condition / Semaphore / RLock if the module has them"""
+    table = dict(Thread=SThread, Lock=SLock, Event=SEvent, Condition=SCondition, Semaphore=SSemaphore,
+                 BoundedSemaphore=SBoundedSemaphore)
+    saved = {}
+    for name, cls in table.items():
+        if hasattr(amod, name) or name in ('Thread', 'Lock', 'Event'):
+            saved[name] = getattr(amod, name, None)
+            setattr(amod, name, cls)
+    return saved
+
+
+def restore(saved):
+    for name, old in saved.items():
+        if old is None:
+            if hasattr(amod, name):
+                delattr(amod, name)
+        else:
+            setattr(amod, name, old)
+
+
 class SThread(threading.Thread):
     def __init__(self, group=None, target=None, name=None, args=(), kwargs=None, daemon=None):
         threading.Thread.__init__(self, group=group, target=target, name=name, args=args, kwargs=kwargs,
@@ -426,6 +594,13 @@ class Tokens(object):
                 if p.ops_done > self.start:
                     self._next()
                     continue
+                if p in s.stalled:
+                    # the request cannot finish by itself (it polls for something only the flusher provides):
+                    # recorded as a violation by the scheduler; from now on the flusher gets a step whenever the
+                    # caller yields, so that the run ends
+                    f = s.flusher()
+                    if f is not None and f in en and me is p:
+                        return f
                 if p in en:
                     return p
                 b = p.block
@@ -642,6 +817,8 @@ def request(cas, recs, op, late=False):
             d['m%d' % op['mkey']] = op['mval']
         r.add_metadata(d)
         d['m%d' % op['mkey']] = op['mval']      # the caller goes on using its own dict
+    elif op['k'] == 'abort':
+        cas.abort_recording(r)
     else:
         cas.save_recording(r)
 
@@ -654,13 +831,16 @@ def run_twin(case, order, late=False):
     try:
         spy = SpyCassette()
         recs = [spy.create_new_recording('cat') for _ in range(case['nrec'])]
-        flags = []
+        flags = []          # outcome per request that goes to the storage (an abort does not: T:59 closes the object)
         for p, i in order:
+            ab = case['work'][p][i]['k'] == 'abort'
             try:
                 request(spy, recs, case['work'][p][i], late=late)
-                flags.append(True)
+                if not ab:
+                    flags.append(True)
             except Exception:
-                flags.append(False)
+                if not ab:
+                    flags.append(False)
         spy.close()
         return dict(saved=contents(spy), live=live_state(spy), flags=flags)
     finally:
@@ -693,6 +873,29 @@ def identify(case, log, enq_order):
     return applied, phantom
 
 
+def place_aborts(case, order, aborts, trace):
+    """Where the synchronous twin carries out the accepted abort requests: an accepted request on the same recording
+    whose call began before the abort's call ended passed its closed-check before the recording was closed, so it comes
+    first; everything on that recording that began later comes after the abort."""
+    if not aborts:
+        return order
+    begin, end = {}, {}
+    for t, ev in enumerate(trace):
+        if ev[0] == 'B':
+            begin[(ev[1], ev[2])] = t
+        elif ev[0] == 'E':
+            end[(ev[1], ev[2])] = t
+    order = list(order)
+    for a in aborts:
+        rec = case['work'][a[0]][a[1]]['rec']
+        at = 0
+        for k, x in enumerate(order):
+            if case['work'][x[0]][x[1]]['rec'] == rec and begin.get(x, -1) < end.get(a, 10**9):
+                at = k + 1
+        order.insert(at, a)
+    return order
+
+
 # --------------------------------------------------------------------------------------------------
 # one scheduled run
 # --------------------------------------------------------------------------------------------------
@@ -701,8 +904,7 @@ def run_once(case, policy, gran):
     # (the step limit grows with the history: a long workload is not a run that fails to terminate)
     sched = Sched(policy, gran, STEP_LIMIT + 16 * sum(len(ops) for ops in case['work']))
     ctx = SpyCtx(fail_table(case))
-    saved_attrs = (amod.Thread, amod.Lock, amod.Event)
-    amod.Thread, amod.Lock, amod.Event = SThread, SLock, SEvent
+    saved_attrs = substitute()
     S, SPY_CTX = sched, ctx
     calls = [[None] * len(ops) for ops in case['work']]   # per request: 'ok' | 'refused' | 'raised:<type>'
     spy = SpyCassette()
@@ -721,8 +923,12 @@ def run_once(case, policy, gran):
                 me = sched.cur
                 for i, op in enumerate(ops):
                     sched.yield_point('op-start')
-                    me.in_call, me.call_locked = True, False
+                    me.in_call, me.call_locked, me.call_yields = True, False, 0
                     sched.trace.append(['B', p, i])
+                    if op['k'] == 'abort':
+                        # carried out at the caller, takes no lock; logged at the start of the call: whoever is refused
+                        # because of it comes later
+                        sched.trace.append(['Q', p])
                     try:
                         request(cas, recs, op)
                         res = 'ok'
@@ -733,7 +939,7 @@ def run_once(case, policy, gran):
                     me.in_call = False
                     if res == 'refused' and not me.call_locked:
                         sched.trace.append(['R', p])
-                    if res != 'refused' and not me.call_locked:
+                    if res != 'refused' and not me.call_locked and op['k'] != 'abort':
                         sched.trace.append(['N', p, i])    # returned without ever taking the lock
                     calls[p][i] = res if not (res == 'refused' and me.call_locked) else 'raised:AssertionError'
                     sched.trace.append(['E', p, i])
@@ -764,7 +970,7 @@ def run_once(case, policy, gran):
         for t in sched.threads:
             if t.real is not None:
                 t.real.join(2.0)
-        amod.Thread, amod.Lock, amod.Event = saved_attrs
+        restore(saved_attrs)
         S = None
     try:
         cas = state.get('cas')
@@ -783,11 +989,14 @@ def run_once(case, policy, gran):
         elif ev[0] == 'E':
             when.setdefault((ev[1], ev[2]), t)
     accepted = [(p, i) for p, ops in enumerate(calls) for i, r in enumerate(ops) if r == 'ok']
+    aborts = [x for x in accepted if case['work'][x[0]][x[1]]['k'] == 'abort']
+    accepted = [x for x in accepted if case['work'][x[0]][x[1]]['k'] != 'abort']     # requests that go to the storage
     enq_order = sorted(accepted, key=lambda x: when.get(x, 10**9))
     applied, phantom = identify(case, ctx.log, enq_order)
     order = [(p, i) for p, i, _ in applied]
     if sorted(order) != sorted(accepted):
         order = enq_order
+    order = place_aborts(case, order, sorted(aborts, key=lambda x: when.get(x, 10**9)), sched.trace)
     twin = run_twin(case, order)
     SPY_CTX = None
     obs = dict(
